@@ -156,6 +156,17 @@ template <typename T> inline void Atomic::store(T* volatile& ptr, T* val) {_Inte
 
 #else
 
+#ifdef NSTD_VERIF
+// verification hook (off unless NSTD_VERIF is defined): every atomic access becomes a scheduling point of the
+// cooperative scheduler in /verif/harness/sched.  A function-like macro that names itself is not expanded again.
+extern "C" void nstd_verif_point(int kind, const volatile void* addr);
+#define __sync_add_and_fetch(p, v) (nstd_verif_point(1, (const volatile void*)(p)), __sync_add_and_fetch(p, v))
+#define __sync_val_compare_and_swap(p, o, n) (nstd_verif_point(2, (const volatile void*)(p)), __sync_val_compare_and_swap(p, o, n))
+#define __sync_lock_test_and_set(p, v) (nstd_verif_point(3, (const volatile void*)(p)), __sync_lock_test_and_set(p, v))
+#define __sync_fetch_and_add(p, v) (nstd_verif_point(4, (const volatile void*)(p)), __sync_fetch_and_add(p, v))
+#define __sync_synchronize() (nstd_verif_point(5, 0), __sync_synchronize())
+#endif
+
 int32 Atomic::increment(volatile int32& var) {return __sync_add_and_fetch(&var, 1);}
 uint32 Atomic::increment(volatile uint32& var) {return __sync_add_and_fetch(&var, 1);}
 int64 Atomic::increment(volatile int64& var) {return __sync_add_and_fetch(&var, 1);}
